@@ -130,8 +130,13 @@ class Storage:
             self.write(name)
 
 
+def canon(name: str) -> str:
+    """'./a' and 'a' are the same file for FileSystemLoader but different cache keys."""
+    return name[2:] if name.startswith("./") else name
+
+
 class Model:
-    """Reference template cache."""
+    """Reference template cache (one per environment)."""
 
     def __init__(self, size: int, auto_reload: bool, kind: str) -> None:
         self.size = size
@@ -143,6 +148,7 @@ class Model:
         """Returns (set of acceptable outcomes, resolver).  Outcomes: int version, 'notfound', 'oserror'.
         ``fault`` is {"kind": "open"|"getmtime"|None}; the kind is cleared when the model says it is consumed."""
         key = (st.gen, name)
+        name = canon(name)
         ent = None
         if self.size != 0 and key in self.lru:
             ent = self.lru[key]
@@ -215,6 +221,8 @@ def _observe(env, names, fs):
         return "notfound", None
     except OSError as e:
         return "oserror", e
+    except Exception as e:  # anything else out of get_template is an outcome, never a harness error
+        return ("raised", type(e).__name__), None
     m = _VER.match(out)
     if not m:
         return ("garbage", out), None
@@ -239,12 +247,17 @@ def run(tape) -> Outcome:
     st = Storage(kind, fs)
     for n in names[: 1 + tape.draw(nnames)]:
         st.write(n)
-    env = jinja2.Environment(loader=st.make_loader(), auto_reload=auto_reload, cache_size=size)
-    model = Model(size, auto_reload, kind)
+    env0 = jinja2.Environment(loader=st.make_loader(), auto_reload=auto_reload, cache_size=size)
+    two_envs = tape.draw(3) == 2  # a second environment (overlay) sharing the loader object, with its own cache
+    envs = [env0, env0.overlay()] if two_envs else [env0]
+    models = [Model(size, auto_reload, kind) for _ in envs]
+    aliases = kind == "fs" and tape.draw(3) == 2  # './a' names: same file, different cache slot
+    req_names = list(names) + (["./" + n for n in names] if aliases else [])
     old_loaders = []
     ops_dec = []
     nontrivial = False
-    changed_since: set = set()  # names changed since they were last loaded
+    seen_current: set = set()  # (env, name) pairs looked up since the name last changed
+    pending: set = set()  # (env, name) pairs that were looked up before and whose source changed since
     fault_op = tape.draw(nops, "f") if faulty else -1
     fault_kind = ("open", "getmtime")[tape.draw(2, "f")] if faulty else None
     fired_faults = 0
@@ -254,12 +267,14 @@ def run(tape) -> Outcome:
         for i in range(nops):
             k = tape.weighted([6, 2, 4, 2, 1, 1, 3, 1])
             if k in (0, 1):
+                ei = tape.draw(len(envs)) if len(envs) > 1 else 0
+                env, model = envs[ei], models[ei]
                 if k == 0:
-                    target = tape.pick(names)
+                    target = tape.pick(req_names)
                     tnames = [target]
                     arg = target
                 else:
-                    tnames = [tape.pick(names) for _ in range(1 + tape.draw(3))]
+                    tnames = [tape.pick(req_names) for _ in range(1 + tape.draw(3))]
                     arg = tnames
                 fault = fault_kind if i == fault_op else None
                 if fault:
@@ -298,7 +313,7 @@ def run(tape) -> Outcome:
                         fired_faults += 1
                     elif expected == {"oserror"}:
                         expected = None  # should not happen: model thought a load was needed
-                ops_dec.append(["get" if k == 0 else "select", tnames, "->", obs if not isinstance(obs, tuple) else "garbage",
+                ops_dec.append([f"env{ei}", "get" if k == 0 else "select", tnames, "->", obs if not isinstance(obs, tuple) else str(obs),
                                 ("fault:" + fault) if fault else ""])
                 if obs == "oserror" and not (fault and extra is fs.last_injected_error):
                     out.violate(("unexpected-oserror", kind), op=i, ops=ops_dec)
@@ -311,38 +326,45 @@ def run(tape) -> Outcome:
                                  "after-fault" if (faulty and i > fault_op) else ("in-fault-op" if fault else "fault-free")),
                                 op=i, observed=obs, expected=sorted(map(str, expected or [])), ops=ops_dec)
                     break
-                if isinstance(obs, int) and extra != hit_name and k == 1:
+                if isinstance(obs, int) and extra != canon(hit_name or "") and k == 1:
                     out.violate(("select-wrong-name", kind), op=i, ops=ops_dec)
                     break
                 if resolver:
                     resolver(obs)
-                if isinstance(obs, int) and any(n in changed_since for n in tnames):
-                    nontrivial = True
                 for n in tnames:
-                    changed_since.discard(n)
+                    if (ei, canon(n)) in pending:
+                        nontrivial = True  # looked up again after its source changed
+                        pending.discard((ei, canon(n)))
+                    seen_current.add((ei, canon(n)))
             elif k == 2:
                 n = tape.pick(names)
                 st.write(n)
-                changed_since.add(n)
+                pending |= {x for x in seen_current if x[1] == n}
+                seen_current = {x for x in seen_current if x[1] != n}
                 ops_dec.append(["modify", n, f"v{st.cur[n]}"])
             elif k == 3:
                 n = tape.pick(names)
                 st.delete(n)
-                changed_since.add(n)
+                pending |= {x for x in seen_current if x[1] == n}
+                seen_current = {x for x in seen_current if x[1] != n}
                 ops_dec.append(["delete", n])
             elif k == 4:
                 n = tape.pick(names)
                 if n not in st.cur:
                     st.write(n)
-                    changed_since.add(n)
+                    pending |= {x for x in seen_current if x[1] == n}
+                    seen_current = {x for x in seen_current if x[1] != n}
                 ops_dec.append(["add", n])
             elif k == 5:
                 keep = bool(tape.draw(2))
                 if keep:
-                    old_loaders.append(env.loader)
+                    old_loaders.append(env0.loader)
                 st.swap()
-                env.loader = st.make_loader()
-                changed_since.update(names)
+                new_loader = st.make_loader()
+                for e_ in envs:
+                    e_.loader = new_loader
+                pending |= seen_current
+                seen_current = set()
                 ops_dec.append(["swap_loader", "old kept alive" if keep else "old dropped"])
             elif k == 6:
                 d = (0.0, 1.0, 5.0, -1.0, -3600.0, 86400.0)[tape.draw(6)]
@@ -352,8 +374,8 @@ def run(tape) -> Outcome:
                 old_loaders.clear()
                 gc.collect()
                 ops_dec.append(["gc"])
-            if size > 0 and len(env.cache) > size:
-                out.violate(("over-capacity", f"size{size}"), op=i, length=len(env.cache), ops=ops_dec)
+            if size > 0 and any(len(e_.cache) > size for e_ in envs):
+                out.violate(("over-capacity", f"size{size}"), op=i, ops=ops_dec)
                 break
     finally:
         if gc_was:
@@ -361,12 +383,15 @@ def run(tape) -> Outcome:
     out.sim_time = clock.covered
     out.count("histories")
     out.count("loader_" + kind)
-    out.count("evictions_predicted", model.evictions)
+    out.count("evictions_predicted", sum(m.evictions for m in models))
+    out.count("histories_two_environments", 1 if two_envs else 0)
+    out.count("histories_alias_names", 1 if aliases else 0)
     out.count("faults_fired_" + str(fault_kind), fired_faults)
     out.count("histories_with_fault", 1 if faulty else 0)
-    out.decoded = {"loader": kind, "auto_reload": auto_reload, "cache_size": size, "names": names, "ops": ops_dec,
+    out.decoded = {"loader": kind, "auto_reload": auto_reload, "cache_size": size, "names": names, "environments": len(envs),
+                   "alias_names": aliases, "ops": ops_dec,
                    "fault": {"op": fault_op, "kind": fault_kind} if faulty else None}
     out.trace = digest(ops_dec)
-    if out.sig is None and (nontrivial or model.evictions or fired_faults):
+    if out.sig is None and (nontrivial or any(m.evictions for m in models) or fired_faults):
         out.case = digest([kind, auto_reload, size, ops_dec])
     return out
